@@ -46,7 +46,9 @@ def h_scan(cx):
                 bad.append((n.lineno, ast.unparse(par) if par is not None else ''))
     cx.expect(not bad, 'read results only flow into struct.unpack / len / not', str(bad[:5]))
     lens = [ast.unparse(n) for n in ast.walk(tree) if isinstance(n, ast.Compare) and 'len(t)' in ast.unparse(n)]
-    cx.expect(set(lens) <= {'len(t) < 4'}, 'length tests', str(set(lens)))
+    # a length test may only compare with the number of bytes that was requested by the read before it (4, or 8 * tmax in the sfqcd reader):
+    # every partial length then behaves alike, which is what the partial-read classes of the file model assume
+    cx.expect(set(lens) <= {'len(t) < 4', 'len(t) < 8 * tmax'}, 'length tests', str(set(lens)))
 
 
 HARNESSES = dict(read=h_read, scan=h_scan)
